@@ -190,35 +190,44 @@ def h_gcd(at, rng):
         sep = at.gcd(ra1, dec1, ra2, dec2)
         sep2 = at.gcd(ra2, dec2, ra1, dec1)
         out = {}
-        # structure: sep = degrees(2*arcsin(v)) with 0 <= v <= 1
-        if sep.ang is None or sep.ang[2] != 0 or len(sep.ang[0]) != 1 or list(sep.ang[0].values()) != [Fraction(2)] or sep.ang[1] != 0:
-            c.oblige('gcd:is-2*arcsin-in-degrees', z3.BoolVal(False))
+
+        def shape_of(sp):
+            """sep = degrees(2 arcsin v) [near], or 180 - degrees(2 arcsin w) [far: distance to the antipode]; returns
+            (kind, v, un-clamped radicand, cos(sep) as a polynomial in the radicand)"""
+            g = sp.ang
+            if g is None or g[2] != 0 or len(g[0]) != 1:
+                return None
+            (nm_, co), = g[0].items()
+            if co == Fraction(2) and g[1] == 0:
+                kind = 'near'
+            elif co == Fraction(-2) and g[1] == 180:
+                kind = 'far'
+            else:
+                return None
+            v_ = c.angdefs[nm_][1]
+            a_ = c.radicand.get(str(v_)) if z3.is_const(v_) else None
+            if a_ is None:
+                rad = [x for x in v_.children() if str(x) in c.radicand]      # v is If(1 <= rad, 1, rad)
+                a_ = c.radicand[str(rad[0])] if rad else None
+            if a_ is None:
+                return None
+            return kind, v_, a_, (1 - 2 * a_ if kind == 'near' else 2 * a_ - 1)
+        sh1, sh2 = shape_of(sep), shape_of(sep2)
+        c.oblige('gcd:is 2 arcsin(v) or 180 - 2 arcsin(w), in degrees', z3.BoolVal(sh1 is not None and sh2 is not None))
+        if sh1 is None or sh2 is None:
             return out
-        c.oblige('gcd:is-2*arcsin-in-degrees', z3.BoolVal(True))
-        (nm, _), = sep.ang[0].items()
-        cr, v = c.angdefs[nm]
+        kind, v, a, cossep = sh1
         c.oblige('gcd:arcsin-arg-in-[0,1] (=> result in [0,180])', z3.And(v >= 0, v <= 1))
-        (nm2, _), = sep2.ang[0].items()
-        v2 = c.angdefs[nm2][1]
         kc = ('dec1', 'dec2')
-        recs = [nz.identity(c, 'gcd:symmetric', v * v, v2 * v2, keepcos=kc)]
-        # independent vector formula: 1 - 2 hav = p1 . p2
+        recs = [nz.identity(c, 'gcd:symmetric', cossep, sh2[3], keepcos=kc)]
+        # independent vector formula: cos(sep) = p1 . p2
         c1, s1 = cs(dec1)
         c2, s2 = cs(dec2)
         ca1, sa1 = cs(ra1)
         ca2, sa2 = cs(ra2)
         dot = (c1 * ca1) * (c2 * ca2) + (c1 * sa1) * (c2 * sa2) + s1 * s2
-        # v = min(1, sqrt(a)); v*v = min(1, a) for a>=0: use the un-clamped radicand
-        a = c.radicand.get(str(v)) if z3.is_const(v) else None
-        if a is None:
-            # v is If(1 <= rad, 1, rad)
-            rad = [x for x in v.children() if str(x) in c.radicand]
-            a = c.radicand[str(rad[0])] if rad else None
-        if a is None:
-            c.oblige('gcd:haversine-visible', z3.BoolVal(False))
-            return out
-        recs.append(nz.identity(c, 'gcd:1-2hav == dot(p1,p2)', 1 - 2 * a, dot, keepcos=kc))
-        out['xc'] = nz.crosscheck(c, 1 - 2 * a, dot, sampler(['ra1', 'dec1', 'ra2', 'dec2'], rng))
+        recs.append(nz.identity(c, 'gcd:cos(sep) == dot(p1,p2) [%s branch]' % kind, cossep, dot, keepcos=kc))
+        out['xc'] = nz.crosscheck(c, cossep, dot, sampler(['ra1', 'dec1', 'ra2', 'dec2'], rng))
         # zero only for identical points / range, given the identity: |dot| <= 1 is Cauchy-Schwarz (not code)
         out['validate'] = (sep.e, ['ra1', 'dec1', 'ra2', 'dec2'])
         return out
@@ -344,6 +353,16 @@ def vec(ra, dec):
 def oracle_sphere(fn, rng, n=400):
     """property-level oracle on the real functions at random points; returns (bad, cls, detail)"""
     at = loader.real('angle_tools')
+    if fn == 'gcd':
+        # exactly antipodal and exactly coincident pairs at many declinations (the sum under the square root rounds to 1 + ulp / 0)
+        for k in range(600):
+            ra1, dec1 = rng.uniform(0, 360), -89.9 + 179.8 * k / 599.0
+            ga = float(at.gcd(ra1, dec1, (ra1 + 180.0) % 360.0, -dec1))
+            g0 = float(at.gcd(ra1, dec1, ra1, dec1))
+            if not (abs(ga - 180.0) <= 1e-9):
+                return True, 'antipodal', 'gcd(%r,%r,%r,%r)=%r for an antipodal pair' % (ra1, dec1, (ra1 + 180.0) % 360.0, -dec1, ga)
+            if not (g0 == 0):
+                return True, 'identical-points', 'gcd of a point with itself = %r at (%r, %r)' % (g0, ra1, dec1)
     for it in range(n):
         ra1, dec1, ra2, dec2 = rng.uniform(0, 360), rng.uniform(-89, 89), rng.uniform(0, 360), rng.uniform(-89, 89)
         if it % 4 == 0:
